@@ -11,6 +11,7 @@ import (
 	"io"
 	"os"
 	"sort"
+	"time"
 
 	log "github.com/sirupsen/logrus"
 )
@@ -68,6 +69,19 @@ func runLines(mk func() func(fs []string) string) {
 		if err != nil {
 			return
 		}
+	}
+}
+
+// withTimeout runs f in its own goroutine; a call that does not return within d is the observation
+// `stuck` (the goroutine is abandoned: the implementation is blocked).
+func withTimeout(d time.Duration, f func() string) string {
+	done := make(chan string, 1)
+	go func() { done <- safely(f) }()
+	select {
+	case r := <-done:
+		return r
+	case <-time.After(d):
+		return "stuck"
 	}
 }
 
